@@ -26,12 +26,19 @@ EXPLANATION = (
     "passed to futures.add, treat_output consumes future.result() of the "
     "future just returned, runner.stop() follows both loops; (R-17.3) every "
     "guard that ends or refuses a run on the basis of the completed-step "
-    "counter compares it with the target number of steps."
+    "counter compares it with the target number of steps; (R-17.5) the "
+    "comparisons of initiate(), loop() and the submission guard of the main loop are "
+    "normalised to integer half-spaces over (cstep, tsteps, workers, toinitiate); with "
+    "c0 completed steps at the (re)start the loop consumes min(T+a, T+b) - c0 results and "
+    "the scheduler submits (I0 - z) + (T + d - W - c0) jobs; the rule requires the offsets "
+    "that make both equal to T - c0 (refusal bound 0, `workers` initiations, min(a, b) = 0, "
+    "d = 0), so an off-by-one in any of the five comparators is reported with its consequence."
 )
 NOT_DECIDED = (
-    "exactly `steps` moves for every (workers, steps, restart point); a finished run leaves no job in flight - "
-    "counting arguments over three integers and the interleaving of two loops (model checking, not this family). "
-    "The submission inequality cstep + workers <= tsteps is extracted and printed, not armed."
+    "R-17.5 is a counting argument for the structure the two loops have today (one increment and one "
+    "consumed result per iteration of the main loop, one submission per guard evaluation - the latter two "
+    "are R-17.2 facts); it assumes steps - c0 >= workers (C18 validates workers; setup_config refuses "
+    "finished runs). Interleavings of the worker coroutines are not modelled (R-17.1 decides the per-item typestate)."
 )
 ASSUMPTIONS = [
     "completing a pending asyncio future (set_result / set_exception) does not raise",
@@ -295,8 +302,171 @@ def r174(ctx):
         ctx.bad("R-17.4", f, "treat_output does not remove the completed job from the in-flight record before the commit: a finished run still lists jobs in flight")
 
 
+# ---------------------------------------------------------------- R-17.5 step arithmetic
+_SYMS = {"cstep": "c", "tsteps": "T", "steps": "T", "workers": "W", "toinitiate": "t"}
+
+
+def _linear(e):
+    """Linear form {symbol: coeff, 1: const} of an integer expression over the step counter,
+    the target, the number of workers and the initiation counter; None if not of that form."""
+    if isinstance(e, ast.Constant) and isinstance(e.value, int) and not isinstance(e.value, bool):
+        return {1: e.value}
+    if isinstance(e, (ast.Attribute, ast.Name)):
+        nm = e.attr if isinstance(e, ast.Attribute) else e.id
+        if nm in _SYMS:
+            return {_SYMS[nm]: 1}
+        return None
+    if isinstance(e, ast.BinOp) and isinstance(e.op, (ast.Add, ast.Sub)):
+        a, b = _linear(e.left), _linear(e.right)
+        if a is None or b is None:
+            return None
+        out = dict(a)
+        sgn = 1 if isinstance(e.op, ast.Add) else -1
+        for k, v in b.items():
+            out[k] = out.get(k, 0) + sgn * v
+        return {k: v for k, v in out.items() if v != 0}
+    if isinstance(e, ast.UnaryOp) and isinstance(e.op, ast.USub):
+        a = _linear(e.operand)
+        return None if a is None else {k: -v for k, v in a.items()}
+    return None
+
+
+def _halfspace(test, truth=True):
+    """Normalise a comparison to  lin >= 0  (integers). Returns the linear form or None.
+    `truth=False` normalises the negation of the test."""
+    if isinstance(test, ast.UnaryOp) and isinstance(test.op, ast.Not):
+        return _halfspace(test.operand, not truth)
+    if not (isinstance(test, ast.Compare) and len(test.ops) == 1):
+        return None
+    a, b = _linear(test.left), _linear(test.comparators[0])
+    if a is None or b is None:
+        return None
+    op = test.ops[0]
+    if not truth:
+        op = {ast.Lt: ast.GtE, ast.LtE: ast.Gt, ast.Gt: ast.LtE, ast.GtE: ast.Lt}.get(type(op), type(None))()
+        if op is None:
+            return None
+
+    def sub(x, y, k=0):
+        out = dict(x)
+        for kk, v in y.items():
+            out[kk] = out.get(kk, 0) - v
+        out[1] = out.get(1, 0) + k
+        return {kk: v for kk, v in out.items() if v != 0 or kk == 1}
+
+    if isinstance(op, ast.GtE):
+        return sub(a, b)
+    if isinstance(op, ast.Gt):
+        return sub(a, b, -1)
+    if isinstance(op, ast.LtE):
+        return sub(b, a)
+    if isinstance(op, ast.Lt):
+        return sub(b, a, -1)
+    return None
+
+
+def _offset(h, shape):
+    """h is a half-space lin >= 0; shape gives the expected coefficients of the symbols.
+    Returns the constant term if the symbol coefficients match, else None."""
+    if h is None:
+        return None
+    if {k: v for k, v in h.items() if k != 1} != shape:
+        return None
+    return h.get(1, 0)
+
+
+def r175(ctx):
+    """Exactly `steps` moves: counting over the comparators of the two scheduler loops.
+
+    With c0 completed steps at (re)start, T requested steps and W workers (T - c0 >= W >= 1):
+      initiate(): refuses iff c >= T + r;  returns True I0 - z times (I0 initial counter, test t >= z)
+      loop():     leaves iff c >= T + a (before the increment), c += 1, goes on iff c <= T + b
+      scheduler:  submits another job iff c + W <= T + d (c after the increment)
+    Results consumed = min(T + a, T + b) - c0; jobs submitted = (I0 - z) + (T + d - W - c0).
+    Exactly T - c0 moves complete and nothing is left in flight iff
+      r == 0, I0 - z == W, min(a, b) == 0 and d == 0."""
+    rid = "R-17.5"
+    tree = ctx.tree
+    init = tree.func(REPEX, "REPEX_state.__init__")
+    initiate = tree.func(REPEX, "REPEX_state.initiate")
+    loop = tree.func(REPEX, "REPEX_state.loop")
+    sched = tree.func(SCHED, "scheduler")
+    # I0
+    i0 = None
+    for n in walk_local(init):
+        if isinstance(n, ast.Assign) and isinstance(n.targets[0], ast.Attribute) and n.targets[0].attr == "toinitiate":
+            i0 = _linear(n.value)
+    if i0 is None:
+        raise AnalysisError("R-17.5: initial value of toinitiate is not a linear form of workers")
+    # initiate: refusal and count
+    r = z = None
+    dec = None
+    for n in initiate.body:
+        if isinstance(n, ast.If) and any(isinstance(x, ast.Return) and isinstance(x.value, ast.Constant) and x.value.value is False for x in n.body):
+            r = _offset(_halfspace(n.test), {"c": 1, "T": -1})
+            r_node = n
+        if isinstance(n, ast.AugAssign) and isinstance(n.target, ast.Attribute) and n.target.attr == "toinitiate":
+            dec = n
+        if isinstance(n, ast.Return) and isinstance(n.value, ast.Compare):
+            z = _offset(_halfspace(n.value), {"t": 1})
+            z_node = n
+    if r is None or z is None or dec is None or not (isinstance(dec.op, ast.Sub) and isinstance(dec.value, ast.Constant) and dec.value.value == 1):
+        raise AnalysisError("R-17.5: initiate() is not of the form `if not cstep < tsteps: return False; ...; toinitiate -= 1; return toinitiate >= k`")
+    # refuse iff c - T + r0 >= 0  <=> c >= T - r0
+    r = -r
+    # True iff t + z0 >= 0 <=> t >= -z0
+    z = -z
+    if r != 0:
+        ctx.bad(rid, r_node, f"initiate() refuses to start workers iff cstep >= tsteps + ({r}): " + ("jobs are started although no step remains - they are still in flight when the run ends" if r > 0 else "no worker is started although steps remain"), construct="initiate refusal bound " + short(r_node.test, 40))
+    else:
+        ctx.ok(rid, r_node, "initiate() refuses exactly when cstep >= tsteps")
+    n_init = dict(i0)
+    n_init[1] = n_init.get(1, 0) - z
+    n_init = {k: v for k, v in n_init.items() if v != 0}
+    if n_init != {"W": 1}:
+        ctx.bad(rid, z_node, f"initiate() returns True {n_init} times, not `workers` times: " + "the number of jobs in flight differs from the number of workers (a job's result is never consumed / a worker is never used)", construct="initiation count " + short(z_node, 40))
+    else:
+        ctx.ok(rid, z_node, "initiate() returns True exactly `workers` times")
+    # loop
+    a = b = None
+    inc = None
+    for n in loop.body:
+        if isinstance(n, ast.If) and any(isinstance(x, ast.Return) and isinstance(x.value, ast.Constant) and x.value.value is False for x in n.body):
+            h = _offset(_halfspace(n.test), {"c": 1, "T": -1})
+            if h is not None:
+                a, a_node = -h, n
+        if isinstance(n, ast.AugAssign) and isinstance(n.target, ast.Attribute) and n.target.attr == "cstep":
+            inc = n
+        if isinstance(n, ast.Return) and isinstance(n.value, ast.Compare):
+            h = _offset(_halfspace(n.value), {"c": -1, "T": 1})
+            if h is not None:
+                b, b_node = h, n
+    if a is None or b is None or inc is None or not (isinstance(inc.op, ast.Add) and isinstance(inc.value, ast.Constant) and inc.value.value == 1):
+        raise AnalysisError("R-17.5: loop() is not of the form `if cstep >= tsteps: ... return False; cstep += 1; ...; return cstep <= tsteps`")
+    if min(a, b) != 0:
+        node = a_node if a < b else b_node
+        ctx.bad(rid, node, f"loop() consumes results for tsteps - c0 + ({min(a, b)}) iterations: " + ("more moves than requested are completed" if min(a, b) > 0 else "the last move(s) are never completed and recorded"), construct="loop bound " + short(node.test if isinstance(node, ast.If) else node.value, 40))
+    else:
+        ctx.ok(rid, a_node, f"loop() runs exactly tsteps - cstep iterations (leaves iff cstep >= tsteps{a:+d} before the increment, goes on iff cstep <= tsteps{b:+d} after it)")
+    # scheduler: submission guard inside `while state.loop()`
+    d = None
+    for w in [x for x in walk_local(sched) if isinstance(x, ast.While) and "loop" in ast.unparse(x.test)]:
+        for n in [x for x in ast.walk(w) if isinstance(x, ast.If)]:
+            if any(isinstance(c, ast.Call) and last_name(c) in ("submit_work", "prep_md_items") for c in ast.walk(n)):
+                h = _offset(_halfspace(n.test), {"c": -1, "W": -1, "T": 1})
+                if h is not None:
+                    d, d_node = h, n
+    if d is None:
+        raise AnalysisError("R-17.5: the submission guard of the main loop is not a comparison of cstep + workers with tsteps")
+    if d != 0:
+        ctx.bad(rid, d_node, f"the main loop submits a new job iff cstep + workers <= tsteps + ({d}): jobs submitted = results consumed + ({d}) - " + ("a job is still in flight when the run ends (its move is lost, the run does not 'leave no job in flight')" if d > 0 else "the last iteration(s) find no job to wait for: fewer moves than requested complete"), construct="submission guard " + short(d_node.test, 50))
+    else:
+        ctx.ok(rid, d_node, "jobs submitted = workers + (tsteps - workers - c0) = results consumed: nothing is left in flight and exactly tsteps - c0 moves complete")
+
+
 def run(ctx):
     ctx.rule("R-17.4", "completed jobs leave the in-flight record (removal before the commit; selector representation agrees with all filling sites)", floor=4)
+    ctx.rule("R-17.5", "step arithmetic: the comparators of initiate(), loop() and the submission guard give exactly tsteps - c0 consumed results and the same number of submitted jobs (linear counting over c0, tsteps, workers)", floor=4)
     ctx.rule("R-17.1", "each dequeued unit completes its future exactly once and calls task_done exactly once", floor=4)
     ctx.rule("R-17.2", "each result is delivered once; every submitted future is managed; runner stopped on exit", floor=6)
     ctx.rule("R-17.3", "stop/refuse decisions compare the step counter with the target", floor=4)
@@ -304,9 +474,22 @@ def run(ctx):
     ctx.attempt(r172, ctx)
     ctx.attempt(r173, ctx)
     ctx.attempt(r174, ctx)
+    ctx.attempt(r175, ctx)
 
 
 VARIANTS = [
+    B("c17-submit-guard-strict", SCHED, "        if state.cstep + state.workers <= state.tsteps:", "        if state.cstep + state.workers < state.tsteps:", "R-17.5", control=True),
+    B("c17-submit-guard-loose", SCHED, "        if state.cstep + state.workers <= state.tsteps:", "        if state.cstep + state.workers <= state.tsteps + 1:", "R-17.5"),
+    B("c17-submit-guard-ignores-workers-offset", SCHED, "        if state.cstep + state.workers <= state.tsteps:", "        if state.cstep + state.workers - 1 <= state.tsteps:", "R-17.5"),
+    B("c17-loop-return-strict", REPEX, "        return self.cstep <= self.tsteps\n", "        return self.cstep < self.tsteps\n", "R-17.5"),
+    B("c17-loop-exit-late", REPEX, "        if self.cstep >= self.tsteps:\n            # should probably", "        if self.cstep > self.tsteps:\n            # should probably", "R-17.5", also=[(REPEX, "        return self.cstep <= self.tsteps\n", "        return self.cstep <= self.tsteps + 1\n")]),
+    B("c17-initiate-count-strict", REPEX, "        return self.toinitiate >= 0\n", "        return self.toinitiate > 0\n", "R-17.5"),
+    B("c17-initiate-refusal-loose", REPEX, "        if not self.cstep < self.tsteps:\n            return False", "        if not self.cstep <= self.tsteps:\n            return False", "R-17.5"),
+    K("c17-keep-submit-guard-flipped", SCHED, "        if state.cstep + state.workers <= state.tsteps:", "        if state.tsteps >= state.workers + state.cstep:"),
+    K("c17-keep-submit-guard-strict-plus-one", SCHED, "        if state.cstep + state.workers <= state.tsteps:", "        if state.cstep + state.workers < state.tsteps + 1:"),
+    K("c17-keep-loop-exit-equivalent", REPEX, "        if self.cstep >= self.tsteps:\n            # should probably", "        if not self.cstep < self.tsteps:\n            # should probably"),
+    K("c17-keep-loop-exit-late-but-return-bounds", REPEX, "        if self.cstep >= self.tsteps:\n            # should probably", "        if self.cstep > self.tsteps:\n            # should probably"),
+    K("c17-keep-initiate-count-equivalent", REPEX, "        return self.toinitiate >= 0\n", "        return self.toinitiate > -1\n"),
     B("c17-result-outside-try", ASYNC, "                    future.set_result(md_item)\n                except Exception as e:\n                    # Pass the exception up in the future\n                    future.set_exception(e)\n", "                except Exception as e:\n                    # Pass the exception up in the future\n                    future.set_exception(e)\n                future.set_result(md_item)\n", "R-17.1", control=True),
     B("c17-exception-not-delivered", ASYNC, "                    # Pass the exception up in the future\n                    future.set_exception(e)\n", "                    logger.error(\"task failed: %s\", e)\n", "R-17.1"),
     B("c17-task-done-skipped-on-exception", ASYNC, "                    future.set_result(md_item)\n                except Exception as e:\n                    # Pass the exception up in the future\n                    future.set_exception(e)\n\n                # Mask the task as done\n                queue.task_done()", "                    future.set_result(md_item)\n                    queue.task_done()\n                except Exception as e:\n                    # Pass the exception up in the future\n                    future.set_exception(e)\n", "R-17.1"),
